@@ -36,7 +36,7 @@ def cases(tier, seed):
                 if dt.startswith("datetime") and op in ("rolling_sum", "rolling_mean") or dt.startswith("timedelta") and op == "rolling_mean":
                     continue
                 for mk in ("none", "bool_sym"):
-                    out.append(dict(_roll(op, dt, N if mk == "none" else min(N, 5), G if tier == "quick" else 2, 2, mk), rel=rel))
+                    out.append(dict(_roll(op, dt, N if (mk == "none" and dt in ("float64", "int64")) else min(N, 5), G if tier == "quick" else 2, 2, mk), rel=rel))
         for op, n in (("nth", 1), ("nth", -1), ("head", 2), ("tail", 2)):
             for mk in ("none", "bool_sym"):
                 out.append({"rel": rel, "fam": "rowsel", "op": op, "n": n, "N": N, "G": G, "mask": {"kind": mk}, "dtype": "int64"})
